@@ -153,14 +153,21 @@ def lnd_case(arg):
     else:
         cx, cy = rng.uniform(0.01, 100), rng.uniform(0.01, 100)
     bounds = [(-1.0, 1.0)] * dim if rng.random() < 0.6 else [(0.0, 1.0), (-2.0, 2.0), (-1.0, 0.5)][:dim]
-    a = adaptive.LearnerND(g, bounds=bounds)
-    b = adaptive.LearnerND(lambda p: cy * g(tuple(x / cx for x in p)), bounds=[(cx * l, cx * h) for l, h in bounds])
+    # every shipped loss of LearnerND is scale-free (they see coordinates divided by the domain size and values divided by the range);
+    # triangle / curvature look at the neighbouring simplices as well
+    from adaptive.learner import learnerND as LN
+    lossn = rng.choice(["default", "default", "uniform", "std", "triangle", "triangle", "curvature", "curvature"])
+    mkloss = {"default": lambda: LN.default_loss, "uniform": lambda: LN.uniform_loss, "std": lambda: LN.std_loss,
+              "triangle": lambda: LN.triangle_loss, "curvature": lambda: LN.curvature_loss_function()}[lossn]
+    a = adaptive.LearnerND(g, bounds=bounds, loss_per_simplex=mkloss())
+    b = adaptive.LearnerND(lambda p: cy * g(tuple(x / cx for x in p)), bounds=[(cx * l, cx * h) for l, h in bounds],
+                           loss_per_simplex=mkloss())
     eq = eq_exact if pow2 else eq_close
     out = []
-    res = {"seed": seed, "pow2": pow2, "dim": dim, "cx": cx, "cy": cy, "fail": None, "steps": 0, "vector": vec}
+    res = {"seed": seed, "pow2": pow2, "dim": dim, "cx": cx, "cy": cy, "fail": None, "steps": 0, "vector": vec, "loss": lossn}
 
     def fail(cl, det):
-        res["fail"] = (cl, f"[LearnerND {dim}-D{' vector' if vec else ''}, cx={cx!r}, cy={cy!r}] step {res['steps']}: {det}")
+        res["fail"] = (cl, f"[LearnerND {dim}-D{' vector' if vec else ''}, {lossn} loss, cx={cx!r}, cy={cy!r}] step {res['steps']}: {det}")
         return res
 
     try:
@@ -203,7 +210,7 @@ def run(ctx):
     proof = core.prove(MODULES, extra_targets=["AdaptiveProofs.Examples.L1D"], leanchecker=ctx.thorough)
     n = ctx.n(240, 4000)
     args1 = [(ctx.rng.randrange(1 << 30), i % 5 != 0) for i in range(n)]
-    args2 = [(ctx.rng.randrange(1 << 30), i % 5 != 0) for i in range(n // 4)]
+    args2 = [(ctx.rng.randrange(1 << 30), i % 5 != 0) for i in range(n // 2)]
     r1 = core.pmap(l1d_case, args1)
     r2 = core.pmap(lnd_case, args2)
     failures, dist, steps = [], {}, 0
@@ -220,6 +227,7 @@ def run(ctx):
         steps += r["steps"]
         k = f"lnd{r['dim']}:{'pow2' if r['pow2'] else 'generic'}" + (":aborted:" + r["aborted"] if r.get("aborted") else "")
         dist[k] = dist.get(k, 0) + 1
+        dist[f"lnd_loss:{r.get('loss')}{':vector' if r.get('vector') else ''}"] = dist.get(f"lnd_loss:{r.get('loss')}{':vector' if r.get('vector') else ''}", 0) + 1
         if r["fail"] and not r["pow2"]:
             dist["lnd:generic_factor_drift(not deciding)"] = dist.get("lnd:generic_factor_drift(not deciding)", 0) + 1
         elif r["fail"]:
